@@ -870,22 +870,30 @@ def replay(inp):
 MANIFEST_ENTRY = {
     'technique': 'Lean 4 proof (finite Fourier analysis on ZMod m x ZMod n from root-of-unity orthogonality) over '
                  'translator-generated pipelines + correspondence of an executable model with the real functions',
-    'text': ('PROVED for every finite abelian index group (every shape, parity, number of axes), every DFT kernel satisfying '
-             'root-of-unity orthogonality (itself proved from primitive roots; instance exp(-2 pi i/n)): conv is the centred circular '
-             'convolution sum_q o[q] h[p-q+c]; commutativity, linearity, impulse at the origin = identity, impulse at c+k = cyclic '
-             'translation by k, total(image) = total(o) total(h); a list of transfer functions = their product, all-ones and the '
-             'empty list = identity in the shifted and the unshifted convention, the two conventions agree (fftshift T vs T, whole '
-             'lists, and callables evaluated on the grid of the convention), transform_psf fed to the shifted convention = conv; '
-             'MTF(0)=1, 0<=MTF<=1 for non-negative PSFs (triangle inequality), MTF point-symmetric (mod shape), OTF Hermitian, '
-             'MTF=|OTF|, OTF=MTF exp(i PTF) with the real Complex.arg/exp; unit DC gain and evenness of jitter/smear/pixel/OLPF. '
-             'On the m x n grid the proved sums are shown equal, sample for sample, to the executable model double sums and roll '
-             'index maps. TRANSLATED from the source each run: conv, apply_transfer_functions (both conventions, loop step, return '
-             'leg), transform_psf, mtf/ptf/otf as terms over an abstract fft2/ifft2/fftshift/ifftshift/*/real/abs/angle signature, '
-             'the reference index, the frequency-grid wiring (per-axis order, origin follows the convention, polar from cartesian, '
-             'keyword table), the analytic transfer-function formulas. MODELLED AND COMPARED: the pipelines run with an O(N^2) DFT '
-             'on doubles and the direct sums vs prysm on all shapes up to the tier bound, impulses at every position, TF lists as '
-             'arrays and callables.'),
+    'text': ('PROVED for every finite abelian index group G and every DFT kernel satisfying root-of-unity orthogonality (itself '
+             'proved from primitive roots; instance exp(-2 pi i/n)); the instance describing prysm is G = ZMod m x ZMod n, every '
+             'm, n >= 1 (the source is 2-D: stacks of images are not covered): conv is the centred circular convolution '
+             'sum_q o[q] h[p-q+c]; commutativity, linearity, impulse at the origin = identity, impulse at c+k = cyclic translation '
+             'by k, total(image) = total(o) total(h); a list of transfer functions = their product, all-ones and the empty list = '
+             'identity in both conventions, the two conventions agree (fftshift T vs T, whole lists); CALLABLES: arbitrary '
+             'functions of the frequency coordinates evaluated on the grids that apply_transfer_functions builds (forward_ft_unit '
+             'and its call site are translated from fttools.py / convolution.py) give the same image in both conventions; '
+             'transform_psf fed to the shifted convention = conv; image total = object total x DC gain; MTF(0)=1, 0<=MTF<=1 for '
+             'non-negative PSFs, MTF point-symmetric (mod shape), OTF Hermitian, MTF=|OTF|, OTF=MTF exp(i PTF) (real '
+             'Complex.arg/exp), also when the source takes the angle without normalising; a container goes through the same '
+             'transform as its .data; unit DC gain and evenness of jitter/smear/pixel/OLPF. On the m x n grid the proved sums equal, '
+             'sample for sample, the executable model double sums and roll index maps (bridge theorems). TRANSLATED each run (every '
+             'statement of apply_transfer_functions must be recognised, else the item is reported as TIE-DEGRADED): conv, '
+             'apply_transfer_functions (both conventions, loop step, `tf = tf(**kwargs)`, return leg), forward_ft_unit, the grid '
+             'call site (axis, shift), transform_psf incl. the container branch, mtf/ptf/otf, the reference index, analytic '
+             'transfer functions. RECOGNISER FACTS only (no Lean content): polar grids from cartesian, keyword table. MODELLED AND '
+             'COMPARED (the driver runs the HAND model; the generated terms are tied to it by the gen_* theorems): pipelines with '
+             'an O(N^2) DFT on doubles and direct sums vs prysm on all shapes up to the tier bound, impulses at every position, TF '
+             'lists as real/complex arrays, as callables (sign-changing, complex, scalar-returning, zero-parameter) on built and on '
+             'caller-supplied grids, mixed array/callable lists; predicates only on large/prime shapes (to 128x128), float32 / '
+             'integer / Fortran / strided inputs, RichData and duck-typed containers, repeated calls (no aliasing).'),
     'note': ('Trusted: scipy.fft computes the DFT sum (the contract the theorems assume, proved satisfiable); fftshift/ifftshift '
-             'semantics (compared with the model index maps every run); floating point (1e-9 relative). Not covered: rounding error '
-             'growth; prysm.objects; diffraction_limited_mtf and the atmospheric OTF formulas.'),
+             'and fftfreq semantics (compared with the model index maps every run); floating point (1e-9 relative; float32 2e-4). '
+             'Not covered: rounding error growth; prysm.objects; diffraction_limited_mtf and the atmospheric OTF formulas; the '
+             'frequency spacing reported by the returned RichData for non-square PSFs (single dx from axis 0).'),
 }
